@@ -502,6 +502,10 @@ fn apply(mut d: Divan, call: &str) -> Divan {
         } else {
             divan::counter::BytesFormat::Decimal
         }),
+        "chars_count" => d.chars_count(val.parse::<u64>().unwrap()),
+        "cycles_count" => d.cycles_count(val.parse::<u64>().unwrap()),
+        "min_time_ns" => d.min_time(std::time::Duration::from_nanos(val.parse().unwrap())),
+        "max_time_ns" => d.max_time(std::time::Duration::from_nanos(val.parse().unwrap())),
         "min_time" => d.min_time(std::time::Duration::from_secs_f64(val.parse().unwrap())),
         "max_time" => d.max_time(std::time::Duration::from_secs_f64(val.parse().unwrap())),
         "" => {
@@ -527,5 +531,39 @@ fn main() {
             d = apply(d, c.strip_prefix("post:").unwrap_or(c));
         }
     }
+    if std::env::var_os("HX_DUMP_RUNNER").is_some() {
+        // The runner-level options as resolved from builder calls, flags and
+        // DIVAN_* variables (hook `runner_options`), and the limits the loop reads.
+        println!("{}", show_runner(&d));
+        return;
+    }
     d.main();
+}
+
+fn show_runner(d: &Divan) -> String {
+    use divan::__verif as v;
+    fn opt<T: ToString>(k: &str, val: Option<T>) -> String {
+        match val {
+            Some(x) => format!("{k}={}", x.to_string()),
+            None => format!("{k}=-"),
+        }
+    }
+    let o = v::runner_options(d);
+    let th = o.threads.as_deref().map(|l| l.iter().map(|n| n.to_string() + ".").collect::<String>());
+    let (min_picos, max_picos) = v::options_time_limits(o);
+    [
+        opt("sc", o.sample_count),
+        opt("ss", o.sample_size),
+        opt("th", th),
+        opt("mn", o.min_time.map(|d| d.as_nanos())),
+        opt("mx", o.max_time.map(|d| d.as_nanos())),
+        opt("se", o.skip_ext_time.map(|b| b as u8)),
+        opt("ig", o.ignore.map(|b| b as u8)),
+        opt("cb", v::options_counter(o, 0)),
+        opt("cc", v::options_counter(o, 1)),
+        opt("cy", v::options_counter(o, 2)),
+        opt("ci", v::options_counter(o, 3)),
+        format!("#N {min_picos} {max_picos}"),
+    ]
+    .join(" ")
 }
